@@ -26,7 +26,9 @@ class InitProbe(tc.TopoProbe):
     defaults = dict(tc.TopoProbe.defaults, own_initial={})
 
     def initial_state(self, config=None):
-        return copy.deepcopy(self.parameters['own_initial'])
+        # the stored dictionary itself (a process may well keep it): nobody
+        # else may write into it
+        return self.parameters['own_initial']
 
 
 def prepare(case, given):
@@ -79,6 +81,7 @@ def check_build(rep, case, build, entry='engine'):
             own[x['port']] = val
     probe = InitProbe({'schema': schema, 'update': old.parameters['update'],
                        'log': b.log, 'own_initial': own})
+    own_before = copy.deepcopy(own)
     set_probe(b, probe)
     sig = {'kind': 'case', 'case': tc.case_id(case), 'given': sorted(map(list, given)),
            'entry': entry}
@@ -154,6 +157,13 @@ def check_build(rep, case, build, entry='engine'):
         want2 = dict(want)
         want2[first] = 9000
         bad = {str(n): flat2.get(n, 'MISSING') for n in exp if flat2.get(n, 'MISSING') != want2[n]}
+        if probe.parameters['own_initial'] != own_before:
+            rep.violation(dict(sig, what='own-state-object'),
+                          'C15 Composite.initial_state(config) wrote into the dictionary the '
+                          'process returned from its own initial_state(): %r became %r; case %s'
+                          % (own_before, probe.parameters['own_initial'], tc.case_id(case)),
+                          {'case': case})
+            return
         if bad:
             rep.violation(dict(sig, what='initial_state(config)'),
                           'C15 Composite.initial_state({initial_state: %r}) gives %s, expected %s; '
